@@ -156,6 +156,8 @@ RSTRIP = z3.Function("RSTRIP", z3.StringSort(), z3.StringSort())
 LSTRIP = z3.Function("LSTRIP", z3.StringSort(), z3.StringSort())
 REPLACE_ALL = z3.Function("REPLACE_ALL", z3.StringSort(), z3.StringSort(), z3.StringSort(), z3.StringSort())
 ISSPACE_HI = z3.Function("ISSPACE_HI", z3.IntSort(), z3.BoolSort())
+# str.lstrip() on an array-encoded string: index of the first character of arr[lo:hi] that is not white space (hi when there is none)
+FIRST_NONBLANK = z3.Function("FIRST_NONBLANK", z3.ArraySort(z3.IntSort(), z3.IntSort()), z3.IntSort(), z3.IntSort(), z3.IntSort())
 ISALPHA_HI = z3.Function("ISALPHA_HI", z3.IntSort(), z3.BoolSort())
 
 
